@@ -129,6 +129,12 @@ func c07HeadersGen(t *rapid.T) ([]c07Hdr, []string) {
 			for k := 0; k < mult; k++ {
 				wn, cs := c07RandomCase(t, name)
 				v, ms := c07CredValue(t, &serial)
+				if mult > 1 && k == 0 && rapid.IntRange(0, 2).Draw(t, "emptyValue") == 0 {
+					// one of the repeated header lines is empty (legal on the wire; round-3 seeded change C07-s3: a
+					// redaction that looks at the first value only treats the header as absent)
+					v, ms = "", nil
+					classes = append(classes, "cred-repeated-with-empty-value")
+				}
 				hs = append(hs, c07Hdr{wn, v, ms, true})
 				classes = append(classes, "cred-"+name, "case-"+cs)
 			}
